@@ -515,3 +515,31 @@ def is_test_id(x):
     `get_latest_snapshot_metadata` contains it."""
     x = x or ""
     return re.search(r"(::tests?::|_tests?::|::tests?_\w*::|::test_\w+|_test$|_tests$|::mock\w*::|::Mock\w+|test_utils)", x) is not None
+
+
+def natural_loop_of(body, block):
+    """(header H, set of blocks) of the innermost natural loop containing `block`, or (None, set())"""
+    n = len(body.blocks)
+    preds = {}
+    for x in range(n):
+        if body.blocks[x].get("cleanup"):
+            continue
+        for y in body.succ(x):
+            preds.setdefault(y, []).append(x)
+    doms = [d for d in range(n) if body.dominates(d, block)]
+    chain = sorted(doms, key=lambda d: -sum(1 for e in doms if body.dominates(e, d)))
+    for d in chain:
+        backs = [p for p in preds.get(d, []) if body.dominates(d, p)]
+        if not backs:
+            continue
+        loop = {d}
+        work = list(backs)
+        while work:
+            x = work.pop()
+            if x in loop:
+                continue
+            loop.add(x)
+            work.extend(preds.get(x, []))
+        if block in loop:
+            return d, loop
+    return None, set()
